@@ -60,20 +60,40 @@ step_exec(const char *step_name, struct config *config, struct arena *scratch,
 		return 1;
 	}
 
+	/*
+	 * Must be installed before forking, a signal delivered before the
+	 * handler is in place would otherwise leave the process group behind.
+	 */
+	siginstall(SIGTERM, sighandler, SIG_NO_RESTART);
+
 	error = step_fork(&c, command, &pid);
 	if (error)
 		return error;
-	if (waitpid(-pid, &status, 0) == -1) {
+	/*
+	 * Poll as opposed of blocking in waitpid(2) since a signal delivered
+	 * just before blocking would go unnoticed until the step exits.
+	 */
+	for (;;) {
+		int w;
+
 		if (gotsig) {
 			warnx("caught signal %d, kill process group",
 			    gotsig);
 			if (killwaitpg(pid, 5000, &status))
 				warnx("failed to kill process group");
-		} else {
-			err(1, "waitpid");
+			break;
 		}
+		w = waitpid(-pid, &status, WNOHANG);
+		if (w == -1)
+			err(1, "waitpid");
+		if (w > 0)
+			break;
+		usleep(50 * 1000);
 	}
 	error = exitstatus(status, gotsig);
+	/* The step was not allowed to finish, never signal success. */
+	if (gotsig && error == 0)
+		error = 128 + gotsig;
 	if (error)
 		warnx("process group exited %d", error);
 	return error;
@@ -211,7 +231,6 @@ step_fork(struct step_context *c, char *const *command, pid_t *out)
 	}
 
 	siginstall(SIGPIPE, SIG_IGN, 0);
-	siginstall(SIGTERM, sighandler, SIG_NO_RESTART);
 
 	/* Wait for the process group to become present. */
 	close(proc_pipe[1]);
